@@ -21,7 +21,7 @@ pub static DEF: PropDef = PropDef {
     id: "C14",
     level: "fault_enumeration",
     engine: "split",
-    rule: "sweep phase (fault enumeration): for generated old-shard datasets (2..13 chunks, rows below / at / above the split point) on both catalog backends, the fault-free split issues R object-store requests; one run per (request index 0..R-1) x {fail before effect, fail after effect, crash before, crash after}, each followed by the driver protocol with faults off (resume while a progress file exists, else restart the split if the old shard is still Active, at most 6 attempts, every attempt with a fresh catalog client and splitter); random phase: 2..3 nested interruptions (faults and crashes also inside resumed runs); the splitter's 10 s and 300 s sleeps run in virtual time; distinct = distinct (dataset, fault position/kind or decision sequence); non-trivial = completed AND at least one interruption fired",
+    rule: "sweep phase (fault enumeration): for generated old-shard datasets (2..13 chunks, rows below / at / above the split point) on both catalog backends, the fault-free split issues R object-store requests; one run per (request index 0..R-1) x {fail before effect, fail after effect, crash before, crash after}, each followed by the driver protocol with faults off (resume while a progress file exists, else restart the split if the old shard is still Active, at most 6 attempts, every attempt with a fresh catalog client and splitter); random phase: 2..3 nested interruptions (faults and crashes also inside resumed runs); a third of the random runs with another node splitting a second shard at a drawn window of the first split, another third with another node making a fenced update of the old shard's metadata at a drawn progress write of the split (its change must survive); the splitter's 10 s and 300 s sleeps run in virtual time; distinct = distinct (dataset, fault position/kind or decision sequence); non-trivial = completed AND at least one interruption fired",
     quick_runs: 2000,
     thorough_runs: 20_000,
     run_cap_ms: 60_000,
@@ -259,6 +259,51 @@ fn scen(spec: RunSpec) -> ScenFut {
                 errs
             }));
         }
+        // ---- another node updates the old shard's metadata while the split runs (say, a fail-over recorded there) ----
+        // It reads, changes one field and writes with the generation it read - a fenced update like any other. If it
+        // succeeds, whoever writes the old shard afterwards must have based the write on it: its change survives.
+        let meddle = !is_sweep && !two_splits && sim::w(3) == 2;
+        let meddled: Arc<std::sync::Mutex<Option<i64>>> = Arc::new(std::sync::Mutex::new(None));
+        if meddle {
+            sim::probe("old-shard-updated-by-another-node-during-the-split");
+            // ... at the first split's k-th progress write (the cut-over makes two or three of them)
+            let kth = 1 + sim::w(16);
+            let go = Arc::new(tokio::sync::Notify::new());
+            {
+                let go = go.clone();
+                let cnt = std::sync::atomic::AtomicU32::new(0);
+                store::set_issue_observer(Box::new(move |node: u32, op: &str, path: &str| {
+                    if node == 0 && op == "PUT" && path.contains("split-progress") && cnt.fetch_add(1, std::sync::atomic::Ordering::SeqCst) + 1 == kth {
+                        go.notify_one();
+                        sim::set_cfg(|c| {
+                            c.starve_node = Some(0);
+                            c.starve_pct = 90;
+                        });
+                    }
+                }));
+            }
+            let w4 = w.clone();
+            let meddled = meddled.clone();
+            tokio::spawn(async move {
+                tokio::select! {
+                    _ = go.notified() => {}
+                    _ = tokio::time::sleep(Duration::from_secs(900)) => { return; }
+                }
+                let (m4, _) = client(&w4, 4);
+                for i in 0..2i64 {
+                    if let Ok(Some(mut m)) = m4.get_shard_metadata(OLD).await {
+                        let based_on = m.generation;
+                        // (a field the split does not derive anything from)
+                        m.replicas = vec![cardinalsin::sharding::ReplicaInfo { replica_id: format!("r{}", 7_000_000 + i), node_id: "node-2".into(), is_leader: true }];
+                        if m4.update_shard_metadata(OLD, &m, based_on).await.is_ok() {
+                            *meddled.lock().unwrap() = Some(7_000_000 + i);
+                            sim::probe("concurrent-update-of-the-old-shard-succeeded");
+                        }
+                    }
+                }
+                sim::set_cfg(|c| c.starve_node = None);
+            });
+        }
         // ---- driver ----
         let mut attempts = 0;
         let mut errors: Vec<String> = Vec::new();
@@ -394,6 +439,17 @@ fn scen(spec: RunSpec) -> ScenFut {
         let osplitter = ShardSplitter::new(ometa.clone(), ostore);
         let has_progress = osplitter.load_progress(OLD).await.ok().flatten().is_some();
         let old_now = ometa.get_shard_metadata(OLD).await.ok().flatten();
+        // the other node's successful update of the old shard must not have been overwritten by a writer acting on
+        // what it had read before (the generation fence, seen from the caller's side)
+        if let (Some(marker), Some(m)) = (*meddled.lock().unwrap(), old_now.as_ref()) {
+            let stored = m.replicas.first().map(|r| r.replica_id.clone()).unwrap_or_default();
+            if stored != format!("r{marker}") {
+                sim::violation(
+                    "C14/concurrent-update-of-old-shard-lost",
+                    format!("another node's update of the old shard (leader replica r{marker}, written with the generation it had read) reported success, but the stored metadata now names {:?} (generation {}, state {:?}): a later writer stored a copy it had read earlier", stored, m.generation, m.state),
+                );
+            }
+        }
         if !finished && (has_progress || old_now.as_ref().map(|m| m.is_active()).unwrap_or(true)) {
             // the driver gave up: the split cannot be resumed
             let last = errors.last().cloned().unwrap_or_default();
